@@ -1259,7 +1259,7 @@ def op_reserved(w, op):
         rp = reserved_path(w, before, op["variant"], user_child, user_ds)
         if not is_reserved(rp):
             raise env.HarnessError(rp)
-        g = dv.mc[base]
+        g = dv.mc if (base == "/" and op.get("on_container")) else dv.mc[base]
         result = None
         try:
             if method == "__getitem__":
@@ -1330,7 +1330,7 @@ def op_reserved(w, op):
 
 
 def gen_reserved(g, sh, ms):
-    return {"op": "reserved", "method": g.choice(RESERVED_METHODS), "variant": g.choice(RESERVED_VARIANTS), "base": g.choice(sh.groups())}
+    return {"op": "reserved", "method": g.choice(RESERVED_METHODS), "variant": g.choice(RESERVED_VARIANTS), "base": g.choice(sh.groups()), "on_container": g.random() < 0.5}
 
 
 # ====================================================================== restricted actors (C15)
